@@ -1,6 +1,8 @@
 import Hms.Sexp
 import Hms.Conc.Protocol
 import Hms.Conc.Invoke
+import Hms.Conc.Poll
+import HmsGen.Enums
 /-! Driver commands of the "Host" area (C16, C10, C17). `dispatchHost cmd payload` answers
 `some line` for the commands it owns and `none` otherwise.
 
@@ -16,26 +18,26 @@ import Hms.Conc.Invoke
 namespace Driver
 open Hms Hms.Conc
 
-def hexStr (s : String) : String := Sexp.hexOfString s
+private def hexStr (s : String) : String := Sexp.hexOfString s
 
-def intrOfString : String → Option Intr
+private def intrOfString : String → Option Intr
   | "fatal" => some .fatal
   | "terminate" => some .terminate
   | "exit" => some .exit
   | _ => none
 
-def intrName : Intr → String
+private def intrName : Intr → String
   | .fatal => "fatal"
   | .terminate => "terminate"
   | .exit => "exit"
 
-structure OracleEntry where
+private structure OracleEntry where
   fn : String
   bound : List Sexp
   before : Sexp
   out : BodyOut Sexp Sexp
 
-def parseRes (sx : Sexp) : Option (CallRes Sexp) :=
+private def parseRes (sx : Sexp) : Option (CallRes Sexp) :=
   match sx.tag, sx.args with
   | "ret", [v] => some (.ret (some v))
   | "retnull", [] => some (.ret none)
@@ -46,9 +48,9 @@ def parseRes (sx : Sexp) : Option (CallRes Sexp) :=
     pure (.fail cls kind msg)
   | _, _ => none
 
-def findArg (tagName : String) (xs : List Sexp) : Option Sexp := xs.find? (fun x => x.tag == tagName)
+private def findArg (tagName : String) (xs : List Sexp) : Option Sexp := xs.find? (fun x => x.tag == tagName)
 
-def parseCallEntry (sx : Sexp) : Option (Call Sexp × OracleEntry) :=
+private def parseCallEntry (sx : Sexp) : Option (Call Sexp × OracleEntry) :=
   match sx.args with
   | fnS :: rest => do
     let fn ← fnS.asStr?
@@ -64,13 +66,13 @@ def parseCallEntry (sx : Sexp) : Option (Call Sexp × OracleEntry) :=
   | _ => none
 
 /-- Does the value have the shape of the declared return type (first level)? -/
-def kindMatches (kind : String) (v : Sexp) : Bool :=
+private def kindMatches (kind : String) (v : Sexp) : Bool :=
   match kind with
   | "any" => true
   | "option" => v.tag == "some" || v.tag == "none"
   | k => v.tag == k
 
-def mkProg (fns : List (String × FnSig × String)) (table : List OracleEntry) : Prog Sexp Sexp where
+private def mkProg (fns : List (String × FnSig × String)) (table : List OracleEntry) : Prog Sexp Sexp where
   sig := fun f => (fns.find? (fun e => e.1 == f)).map (·.2.1)
   body := fun f bound g =>
     match table.find? (fun e => e.fn == f && e.bound == bound && e.before == g) with
@@ -81,9 +83,9 @@ def mkProg (fns : List (String × FnSig × String)) (table : List OracleEntry) :
     | some e => kindMatches e.2.2 v
     | none => false
 
-def lockS (p : PState) : String := if p.lockFree then "free" else "held"
+private def lockS (p : PState) : String := if p.lockFree then "free" else "held"
 
-def resultLine (s : VMState Sexp Sexp) (r : Result Sexp) (out : String) : String :=
+private def resultLine (s : VMState Sexp Sexp) (r : Result Sexp) (out : String) : String :=
   let tail := s!"out={hexStr out} cores={s.proto.listed.length} lock={lockS s.proto}"
   let core := match s.last with
     | some c => s!" stack={c.stack.length} frames={c.frames}"
@@ -127,9 +129,67 @@ def cmdHostModel (payload : String) : String :=
       " | ".intercalate (go (VMState.init g0) (entries.map (·.1)) [] true)
     | _, _ => "BAD-INPUT"
 
+/-! ### `pollmodel (entry x<fn>) (fns (x<fn> <op>…)…) (ks <k>…)`
+
+Ops: `X` (any instruction without effect on control), `P` (a print: builtin call), `R` (Return),
+`C:x<fn>` (Call_Imm). Runs `Hms.Conc.run` on the listing machine with the regenerated quantum:
+first uncancelled (`polls`, prints before every poll), then, for every `k`, cancelled from the
+time of the k-th poll on. Answer: `FULL sig=… steps=… polls=… tpp=(…) | k=<k> sig=… polls=… prints=…`. -/
+
+private def parseOp (sx : Sexp) : Option Op :=
+  match sx with
+  | .atom "X" => some .plain
+  | .atom "P" => some .print
+  | .atom "R" => some .ret
+  | .atom a =>
+    if a.startsWith "C:" then (Sexp.atom (String.ofList (a.toList.drop 2))).asStr?.map Op.call else none
+  | _ => none
+
+private def sigS : Sig → String
+  | none => "nil"
+  | some i => intrName i
+
+private def natList (xs : List Nat) : String := "(" ++ " ".intercalate (xs.map toString) ++ ")"
+
+def cmdPollModel (payload : String) : String :=
+  match Sexp.parse ("(" ++ payload ++ ")") with
+  | none => "BAD-INPUT"
+  | some sx =>
+    let parts := sx.items
+    let fns := ((findArg "fns" parts).map Sexp.args).getD [] |>.filterMap fun e =>
+      match e.items with
+      | n :: ops => do
+        let name ← n.asStr?
+        let os ← ops.mapM parseOp
+        pure (name, os)
+      | _ => none
+    match (findArg "entry" parts) >>= (·.args.head?) >>= Sexp.asStr? with
+    | none => "BAD-INPUT"
+    | some entry =>
+      let l : Listing := ⟨fns⟩
+      let q := HmsGen.vmQuantum
+      let m := listingMachine l
+      let mt : Machine LState := { m with obs := fun s => s.steps }
+      let s0 : LState := ⟨[(entry, 0)], 0, 0⟩
+      let never := 1000000000
+      let fuel := 200000
+      match run m q never fuel 0 0 [] s0, run mt q never fuel 0 0 [] s0 with
+      | some full, some times =>
+        let ks := ((findArg "ks" parts).map Sexp.args).getD [] |>.filterMap Sexp.asNat?
+        let perK := ks.map fun k =>
+          match times.trace[k - 1]? with
+          | none => s!"k={k} beyond"
+          | some T =>
+            match run m q T fuel 0 0 [] s0 with
+            | some r => s!"k={k} sig={sigS r.sig} polls={r.polls} prints={r.trace.getLast?.getD 0}"
+            | none => s!"k={k} fuel"
+        " | ".intercalate (s!"FULL sig={sigS full.sig} steps={full.t} polls={full.polls} tpp={natList full.trace}" :: perK)
+      | _, _ => "FUEL"
+
 def dispatchHost (cmd : String) (payload : String) : Option String :=
   match cmd with
   | "hostmodel" => some (cmdHostModel payload)
+  | "pollmodel" => some (cmdPollModel payload)
   | _ => none
 
 end Driver
